@@ -1,7 +1,7 @@
 (* C03 - Index and primary-key equality search returns exactly the matching
    rows.  Property theorems only; proofs are in Proofs/. *)
 From SQ Require Import Model.Base Model.Record Model.Btree Model.Cmp Model.Low
-     Spec.Flat Spec.Deliver Spec.Order Proofs.SearchP Proofs.DeliverP Proofs.LowP Proofs.ScanP Proofs.CmpP Proofs.SortedP.
+     Spec.Flat Spec.Deliver Spec.Order Proofs.SearchP Proofs.DeliverP Proofs.LowP Proofs.ScanP Proofs.CmpP Proofs.SortedP Model.High Proofs.HighP Proofs.HighEqP.
 From Coq Require Import Sorting.Sorted.
 
 (* Index.ScanEq delivers, in index order, the run of entries equal to the key
@@ -49,3 +49,34 @@ Theorem C03_scan_eq_sorted : forall pg op npages root cols l,
   outcome (index_scan_eq pg op npages _ root key (stop_after None) []) = (None, rev (filter (equals key) l)).
 Proof. exact scan_eq_sorted. Qed.
 Print Assumptions C03_scan_eq_sorted.
+
+(* the high level selects (key.go, indexed_select.go; Model/High.v).  The key built from the
+   caller's values carries, column by column, the index's collation and direction ... *)
+Theorem C03_key_carries_index_flags : forall k cols dk, as_dbkey k cols = Ok dk ->
+  key_matches (index_order cols) dk /\ map kv dk = k.
+Proof. exact as_dbkey_matches. Qed.
+Print Assumptions C03_key_carries_index_flags.
+
+(* ... IndexedSelectEq on a rowid table is the equality scan of the index with that key, each
+   entry mapped through the lookup of the table row its rowid names ... *)
+Theorem C03_indexed_select_eq : forall pg op npages S cb sc ms table columns, master pg op npages = (Continue, ms) ->
+  forall iname ind k dbkey ci troot iroot s, s_worowid sc = false ->
+  find_index sc iname = Some ind -> as_dbkey k (si_cols ind) = Ok dbkey -> to_ci_rowid sc columns = Ok ci ->
+  find_root ms name_table table = Ok troot -> find_root ms name_index (si_name ind) = Ok iroot ->
+  h_indexed_select_eq pg op npages S cb sc table iname k columns s
+  = index_scan_eq pg op npages S iroot dbkey (via_rowid pg op npages S cb ci troot) s.
+Proof. exact indexed_select_eq_rowid_table. Qed.
+Print Assumptions C03_indexed_select_eq.
+
+(* ... and PKSelect on a WITHOUT ROWID table whose tree is sorted by its primary key order returns,
+   end to end, exactly the rows whose key columns equal the caller's values under the key
+   columns' collations and directions - none missing, none extra, in key order, mapped *)
+Theorem C03_pk_select_sorted : forall pg op npages sc ms table columns k dbkey ci troot l,
+  master pg op npages = (Continue, ms) -> s_worowid sc = true ->
+  to_ci_nonrowid sc columns = Ok ci -> find_root ms name_table table = Ok troot -> as_dbkey k (s_pk sc) = Ok dbkey ->
+  index_rows pg op npages troot = (l, None) -> Forall (Forall storable) l -> Forall storable k ->
+  Sorted (fun r1 r2 => cle (rcmp (index_order (s_pk sc)) r1 r2)) l ->
+  outcome (h_pk_select pg op npages _ (stop_after None) sc table k columns [])
+  = (None, rev (map (to_row 0 ci) (filter (equals dbkey) l))).
+Proof. exact pk_select_sorted. Qed.
+Print Assumptions C03_pk_select_sorted.
